@@ -171,6 +171,13 @@ def run(prop, tier):
     subprocess.run(["rm", "-rf", workdir])
     probes = spec["probes"]
     evaluate(host, probes, workdir, spec.get("externs", ("gc_arena",)))
+    for i, sub in enumerate(spec.get("more", [])):
+        h2 = Host(sub.get("features"))
+        h2.build()
+        evaluate(h2, sub["probes"], workdir + f"-{i}", sub.get("externs", ("gc_arena",)))
+        for q in sub["probes"]:
+            q.features, q.externs = sub.get("features"), sub.get("externs", ("gc_arena",))
+        probes = probes + sub["probes"]
     known = engines.known_open(prop)
     viol, mach, klines = judge(prop, probes, known)
     extra_cov = {}
@@ -213,6 +220,10 @@ def run(prop, tier):
         "groups": {k: {"programs": v[0], "accepted": v[1]} for k, v in sorted(groups.items())},
         "golden_code_notes": notes[:20],
     }
+    if "container_instances" in spec:
+        cov["container_instances_checked"] = spec["container_instances"] + sum(m.get("container_instances", 0) for m in spec.get("more", []))
+    if "shapes" in spec:
+        cov["type_shapes"] = spec["shapes"]
     cov.update(extra_cov)
     wall = time.time() - t0
     nviol = len(viol) + (1 if extra_viol else 0)
@@ -222,7 +233,7 @@ def run(prop, tier):
         print(l)
     if viol:
         p, msg = viol[0]
-        path = cm.write_replay(prop, "probe", {"probe_id": p.id, "expect": p.expect, "message": msg, "features": spec.get("features"), "externs": list(spec.get("externs", ("gc_arena",))), "program": p.src})
+        path = cm.write_replay(prop, "probe", {"probe_id": p.id, "expect": p.expect, "message": msg, "features": getattr(p, "features", spec.get("features")), "externs": list(getattr(p, "externs", spec.get("externs", ("gc_arena",)))), "program": p.src})
         log(f"violated: probe {p.id}: {msg}")
         for q, m in viol[1:6]:
             log(f"   also: {q.id}: {m[:160]}")
